@@ -182,6 +182,12 @@ pub fn k_long() -> &'static str {
     Box::leak(long_key().into_boxed_str())
 }
 
+/// A string whose encoding spans more than one blob page (the first page of the chain is
+/// filled completely: 8182 payload bytes per page).
+pub fn big_value() -> &'static str {
+    Box::leak("v".repeat(3 * 8182 - 5).into_boxed_str())
+}
+
 pub fn sigma_write(nodes: &[u64], rich: bool) -> Vec<Op> {
     let mut a = Vec::new();
     for &e in nodes {
@@ -198,6 +204,9 @@ pub fn sigma_write(nodes: &[u64], rich: bool) -> Vec<Op> {
             a.push(Op::RemoveLabel { e, l: "B" });
         }
     }
+    // the same label added and removed inside one transaction (both orders)
+    a.push(Op::Tx(vec![Op::AddLabel { e: nodes[0], l: "B" }, Op::RemoveLabel { e: nodes[0], l: "B" }]));
+    a.push(Op::Tx(vec![Op::RemoveLabel { e: nodes[0], l: "A" }, Op::AddLabel { e: nodes[0], l: "A" }]));
     let pairs: Vec<(u64, u64)> = if nodes.len() >= 2 { vec![(nodes[0], nodes[1]), (nodes[1], nodes[0]), (nodes[0], nodes[0])] } else { vec![(nodes[0], nodes[0])] };
     for &(s, d) in &pairs {
         a.push(Op::CreateEdge { s, t: "R", d });
@@ -585,6 +594,7 @@ pub fn c28(tier: Tier) -> i32 {
     let nodes = vec![1u64, 2];
     let mut alphabet = sigma_write(&nodes, false);
     alphabet.push(Op::SetVector { e: 1, v: [1, 1] });
+    alphabet.push(Op::SetNodeProp { e: 1, k: "big", v: Val::S(big_value()) });
     alphabet.push(Op::Compact);
     alphabet.push(Op::CreateIndex { l: "A", k: "k" });
     alphabet.push(Op::CloseOpen);
@@ -684,6 +694,7 @@ pub fn c18(tier: Tier) -> i32 {
         Op::SetEdgeProp { s: 1, t: "R", d: 2, k: "k", v: Val::I(1) },
     ]));
     alphabet.push(Op::SetNodeProp { e: 2, k: k_long(), v: Val::S("s") });
+    alphabet.push(Op::SetNodeProp { e: 2, k: "big", v: Val::S(big_value()) });
     alphabet.push(Op::SetNodeProp { e: 1, k: "k", v: Val::I(2) });
     alphabet.push(Op::CreateEdge { s: 2, t: "R", d: 1 });
     alphabet.push(Op::SetVector { e: 1, v: [1, 1] });
